@@ -22,15 +22,38 @@ def first_of(f, name, variant):
     t = peel(b.local_term(0))
     ok = is_call(t, "Iterator::find_map") and len(t[3]) == 2
     fresh = ok and any(is_call(x, "iter") and x[3] and chain(x[3][0])[0] == ("param", "self") for x in walk(t[3][0]) if x[0] == "call")
-    cl = [c for c in f.children(b) if c.kind == "closure"]
-    okc = False
-    if len(cl) == 1:
-        alts = phi_alts(cl[0].local_term(0))
+    envs = dict((cb.name, env) for cb, env in roles.closure_envs(f, b))
+
+    def selector(cb, want):
+        """closure cb maps an entry to Some(payload at chain `want` from its parameter) and to None otherwise"""
+        alts = phi_alts(cb.local_term(0))
         some = [a for a in alts if a[0] == "agg" and a[3] == "Some"]
         none = [a for a in alts if a[0] == "agg" and a[3] == "None"]
         if len(some) == 1 and len(none) >= 1 and len(some) + len(none) == len(alts):
             r, n = chain(some[0][5][0])
-            okc = r[0] == "param" and n == ["@Ok", "0", "@" + variant, "0"]
+            return r == ("param", cb.param_name(2)) and n == want
+        return False
+    okc = False
+    fm = None
+    if ok:
+        # the closure handed to find_map
+        for x in walk(t[3][1]):
+            if x[0] == "agg" and x[1] == "closure" and x[2] in f.bodies:
+                fm = f.bodies[x[2]]
+                break
+    if fm is not None and fm.arg_count >= 2:
+        if selector(fm, ["@Ok", "0", "@" + variant, "0"]):
+            okc = True
+        else:
+            # entry.ok().and_then(select): failed entries are skipped, decoded ones go through `select`
+            r = peel(fm.local_term(0))
+            if is_call(r, "Option::<T>::and_then") and len(r[3]) == 2 and is_call(peel(r[3][0]), "Result::<T, E>::ok") \
+                    and peel(peel(r[3][0])[3][0]) == ("param", fm.param_name(2)):
+                from ..core import subst as _subst
+                sel = _subst(r[3][1], envs.get(fm.name, {}))
+                for x in walk(sel):
+                    if x[0] == "agg" and x[1] == "closure" and x[2] in f.bodies:
+                        okc = selector(f.bodies[x[2]], ["@" + variant, "0"])
     return b, ok and fresh, okc
 
 
@@ -84,6 +107,25 @@ def rule_publication(R):
                                          ("publication::OwnedResponseTarget", ["topic"], ["correlation_data"])):
         b = roles.method(f, adt, "publication")
         R.touch(b)
+        short = adt.rsplit("::", 1)[-1]
+        # delegation: `ResponseTarget { topic: <stored topic>, correlation_data: <stored data> }.publication(payload)`
+        # (the borrowed form is checked on its own)
+        rt = peel(b.local_term(0))
+        if short == "OwnedResponseTarget" and rt[0] == "call" and rt[2] in f.bodies and f.bodies[rt[2]].fn_name == "publication" \
+                and roles.self_is(f.bodies[rt[2]], "publication::ResponseTarget") and rt[3]:
+            tgt = peel(rt[3][0])
+            okn = okc = False
+            if tgt[0] == "agg" and (tgt[2] or "").endswith("ResponseTarget"):
+                fl = dict(zip(tgt[4], tgt[5]))
+                ex = ("as_str", "as_deref", "Deref::deref")
+                tt = roles.expand_getter(f, fl.get("topic"))
+                cc = roles.expand_getter(f, fl.get("correlation_data"))
+                okn = chain(tt, extra=ex)[0] == ("param", "self") and chain(tt, extra=ex)[1][-1:] == ["topic"]
+                okc = chain(cc, extra=ex)[0] == ("param", "self") and chain(cc, extra=ex)[1][-1:] == ["correlation_data"]
+            R.ob("publication/%s/topic" % short, okn, "%s::publication addresses the stored response topic" % short, where=b.span)
+            R.ob("publication/%s/correlation" % short, okc,
+                 "%s::publication attaches exactly the stored correlation data when present" % short, where=b.span)
+            continue
         news = [c for c in b.calls.values() if c.bb in b.reachable and c.is_("Publication::<'a, P>::new", "Publication::new")]
         cors = [c for c in b.calls.values() if c.bb in b.reachable and c.is_("correlate")]
         extra = ("as_str", "as_deref", "Deref::deref")
@@ -102,7 +144,6 @@ def rule_publication(R):
                 if si["enum"] == "core::option::Option" and "correlation_data" in nn and si["edges"].get("Some") is not None:
                     some_t = si["edges"]["Some"]
             okc = okc and some_t is not None and b.must_pass([some_t], b.returns, via_blocks=[cors[0].bb])[0]
-        short = adt.rsplit("::", 1)[-1]
         R.ob("publication/%s/topic" % short, okn, "%s::publication addresses the stored response topic" % short, where=b.span)
         R.ob("publication/%s/correlation" % short, okc,
              "%s::publication attaches exactly the stored correlation data when present" % short, where=b.span)
